@@ -365,6 +365,10 @@ func (c *Ctx) verifyFunctionShape(rule string, g *ssa.Function) {
 			c.ok(rule, key, ret, "a demotion dominates this return")
 			continue
 		}
+		if m.returnLeadsToDemotion(ret) {
+			c.ok(rule, key, ret, "in the only caller every path that continues from this return (with the returned constants) passes a demotion")
+			continue
+		}
 		gs := m.Guards(b)
 		getOK := hasLit(gs, true, func(s *Sym) bool {
 			return s.Op == "bin" && s.Name == "==" && symMentions(s, "KeyValue.Get(") && symMentions(s, "nil") && strings.Contains(s.String(), "#1")
